@@ -279,9 +279,20 @@ class CaseSpec:
                     complaints.append((c.name, fl, msg))
             cov["oracle_selftest"] = dict(observations=len(sample), complaints=len(complaints), first=[list(x) for x in complaints[:3]], wall_s=round(time.time() - t2, 1))
             log("[%s] oracle self-test: %d observations, %d complaints%s" % (prop, len(sample), len(complaints), (" e.g. %s" % (complaints[0],)) if complaints else ""))
-        if dis or not pr["ok"]:
+        # cases the model does not run (tag oracle_only): the independent oracle decides them on every run
+        forced = []
+        for c in cases:
+            if c.tags.get("oracle_only"):
+                for fl in fls:
+                    if fl in FLAVOURS[c.cls]:
+                        obs = "HANG" if c.name in results["hangs"][fl] else results[fl].get(c.name, [])
+                        msg = self.oracle(c, fl, obs)
+                        if msg:
+                            forced.append((c, fl, msg))
+        cov["oracle_only_cases"] = len([c for c in cases if c.tags.get("oracle_only")])
+        if dis or not pr["ok"] or forced:
             # failing-input search: the disagreeing cases first, then everything generated in this run
-            found = []
+            found = list(forced)
             order = [(by_name[d["case"]], d["flavour"]) for d in dis]
             if len(order) < 4000:
                 order += [(c, fl) for c in cases for fl in fls if fl in FLAVOURS[c.cls]][:200000]
@@ -515,7 +526,7 @@ class C06(SearchSpec):
 
 
 class C07(SearchSpec):
-    algos, whats = ("bfs", "dfs", "pmin", "pmax", "pre", "post"), ("path", "nodes", "edges", "cycle")
+    algos, whats = ("bfs", "dfs", "pmin", "pmax", "pre", "post"), ("find", "path", "nodes", "edges", "cycle")
     level_q, level_t = 2, 2
 
     def cases(self, tier, rng):
